@@ -89,7 +89,7 @@ func descLops(ops []lop) string {
 		case 3:
 			d = fmt.Sprintf("Has()=%v", o.s == 1)
 		case 4:
-			d = fmt.Sprintf("Get()=%d", o.s)
+			d = "Get()=" + showGot(o.s)
 		default:
 			d = fmt.Sprintf("Compute(given %d, aborts)", o.s)
 		}
